@@ -41,6 +41,7 @@ var classBytes = map[string][]string{
 	"true": {"true", "null", "false"}, "str": {"\"a\"", "\"\\\"\"", "\"\\\\\""}, "num": {"1", "-0.5e+3", "0"},
 	"kw": {"let", "function", "class", "async", "await", "yield", "of", "in", "new", "return", "static", "get"}, "arrow": {"=>"}, "tpl": {"`", "${", "}"}, "ell": {"..."},
 	"opt": {"?.", "??", "**", "++", "--"}, "regex": {"/a/", "/[/]/g"}, "id": {"a", "b", "x1"}, "var": {"var ", "let ", "const "}, "fn": {"function ", "async ", "class "},
+	"uesc": {"\\u{", "\\u00", "\\u{4", "\\u", "\\u{1F6"}, // the start of a unicode escape (identifier, string, template, regexp)
 }
 
 func concretise(cls []string, rng *rand.Rand) []byte { return concretiseFor(cls, rng, nil) }
